@@ -120,6 +120,10 @@ impl Meta {
                             let mut inner = false;
                             go(m, &mut inner, v);
                         }
+                    } else {
+                        panic!("bpaf usage BUG: adjacent group should start with a required item, \
+                        not with an alternative, a hidden or an optional one, but {:?} breaks this rule. \
+                        See bpaf documentation for `adjacent` for details.", m);
                     }
                 }
                 Meta::Optional(m)
